@@ -22,11 +22,12 @@ func (e binaryEncoder) Decode(data []byte, length int) ([]byte, int, error) {
 		return nil, 0, fmt.Errorf("length should be positive, got %d", length)
 	}
 
-	out := append([]byte(nil), data...)
-
 	if length > len(data) {
 		return nil, 0, fmt.Errorf("failed to perform binary decoding: length %v exceeds the data size %v", length, len(data))
 	}
 
-	return out[:length], length, nil
+	// copy only the bytes that are returned, not the rest of the message
+	out := append([]byte(nil), data[:length]...)
+
+	return out, length, nil
 }
